@@ -40,13 +40,13 @@ type propSpec struct {
 	Assume      []string
 }
 
-var commonReal = []string{"server.Service", "client.Service", "pkg/* of frp", "golib (crypto, io.Join, mux, msg/json, dial hooks)", "yamux", "crypto/tls", "net/http", "x/net/websocket", "x/time/rate", "go-proxyproto"}
+var commonReal = []string{"server.Service", "client.Service", "pkg/* of frp", "golib (crypto, io.Join, mux, msg/json, dial hooks)", "yamux", "crypto/tls", "net/http", "x/net/websocket", "x/time/rate", "go-proxyproto", "quic-go (QUIC control transport, over a simulated packet socket)"}
 var commonStub = []string{"network (simnet)", "backends", "users", "clock (testing/synctest bubble)", "Go runtime randomness (overlay)"}
 var commonAssume = []string{
-	"go1.26.8 runtime with the verif determinism overlay (mutex waits durable in synctest, seeded select/map/math-rand streams, no time-sliced preemption)",
+	"go1.26.8 runtime with the verif determinism overlay (mutex waits durable in synctest, seeded select/map/math-rand streams, no time-sliced preemption, bubble clock lands 1 ns past a timer deadline, no bubble timer fires sooner than 1 us after it was armed)",
 	"one P, GC off: true parallel execution is not exercised",
 	"TCP is a reliable in-order byte stream; bytes are never corrupted by the simulator",
-	"kcp and quic transports and the xtcp direct path are outside the explored space",
+	"the kcp transport and the xtcp direct path are outside the explored space (quic is inside: quic-go over the simulated packet network)",
 	"sampling, not proof: a clean batch is evidence only",
 }
 
@@ -95,7 +95,7 @@ func init() {
 		},
 		Stub:   []string{"network (simnet)", "scripted clients, visitors and adversaries (independent protocol implementation)", "ssh client (x/crypto/ssh) for the tunnel gateway", "stub OIDC issuer (discovery document + JWKS over the simulated network, ES256 tokens minted by the harness)", "users", "clock"},
 		Rule:   "one run = real frps (token auth, drawn additional scopes, TLS and mux on/off, finite heartbeat timeout) with an honest scripted client carrying traffic and a seeded sequence of adversarial histories (bad/missing/self-exempting logins, foreign or unknown work connections, unauthenticated first messages, invalid-heartbeat sessions, floods), in 40% of the runs with the ssh tunnel gateway (authorized / unauthorized key, or no ssh authentication and right / wrong / missing token); batch oidc: real frps with the OIDC method (audience, expiry and issuer checks drawn) against a stub issuer, scripted clients presenting valid tokens and 7-11 invalid variants (empty, garbage, unpublished key, alg none, empty signature, HS256, swapped payload, expired, wrong issuer, wrong or missing audience) in logins, heartbeats and work connections; distinct = distinct event-log hash",
-		Assume: []string{"kcp/quic listeners are not exercised; the websocket entry is exercised in C05's policy scenarios"},
+		Assume: []string{"the kcp listener is not exercised; scripted peers enter through the bind port (tcp/tls), its websocket path or the QUIC listener, drawn per run"},
 	})
 	reg(&propSpec{ID: "C08", Level: "exploration",
 		Batches: []batchSpec{
@@ -201,7 +201,7 @@ func init() {
 		Stub:   []string{"network (simnet) with a byte tap on every connection accepted at the server's bind port", "echo / HTTP backend", "users", "scripted peers and a scripted TLS server (crypto/tls, independent of frp's transport code)", "clock"},
 		Real:   append(append([]string{}, commonReal...), "pkg/transport TLS configuration, pkg/util/net TLS dial/listen wrappers, golib crypto + snappy streams"),
 		Rule:   "one run = either (a) real frps + two real frpc (tcp, stcp + visitor, http with credentials) with a drawn configuration (TLS on/off, custom first byte, tcp/websocket, mux, pool, proxy encryption, compression) carrying per-run high-entropy markers as token, secret key, http password, proxy name and payload, after which every byte that crossed the client-server path is searched for the markers (raw and base64); or (b) a policy scenario: a server with forced TLS and/or a trusted CA against scripted peers (plaintext, TLS without / with rogue / with good certificate, all 256 first bytes followed by a plaintext login), or a real frpc with trusted CA + server name against a scripted TLS server with the right identity, a rogue-CA identity or another name; distinct = distinct event-log hash",
-		Assume: []string{"kcp, quic and wss transports are not simulated", "a marker is searched raw and base64-encoded only; other reversible encodings of a secret would not be noticed"},
+		Assume: []string{"kcp and wss transports are not simulated; quic is (datagram tap on the QUIC port)", "a marker is searched raw and base64-encoded only; other reversible encodings of a secret would not be noticed"},
 	})
 	reg(&propSpec{ID: "C14", Level: "fault_enumeration",
 		Batches: []batchSpec{
